@@ -1,33 +1,43 @@
 #!/usr/bin/env python3
-"""tools/seed_matrix.py <root> <out.json> [ID ...]: for every seeded change under <root>-<ID>/mut<n> apply it to /repo,
-run the quick check of its property (and extra checks listed below), undo it; record which checks report a violation."""
+"""tools/seed_matrix.py <root> <out.json> [ID ...]: for every seeded change under <root>-<ID>/mut<n>: apply it to a scratch
+worktree of /repo's HEAD (never to /repo itself, so other checks can keep running), run the quick check of its property
+(and the extra checks listed below) with VERIF_REPO pointing at that worktree, undo it; record which checks report a violation.
+Evidence / replays of these runs go to /verif/.alt/."""
 import json, os, subprocess, sys
 
 root, out = sys.argv[1], sys.argv[2]
 ids = sys.argv[3:] or [f"C{i:02d}" for i in range(1, 21)]
-EXTRA = {"C02": ["C08", "C10", "C18"], "C06": ["C14"], "C07": ["C14"], "C10": ["C04"], "C04": ["C10"], "C16": ["C08", "C05"], "C15": ["C05"], "C20": ["C05"]}
+EXTRA = {"C02": ["C08", "C10", "C18"], "C06": ["C14"], "C07": ["C14"], "C10": ["C04"], "C04": ["C10"], "C16": ["C08", "C05"], "C15": ["C05"], "C20": ["C05"],
+         "C14": ["C09"], "C09": ["C14"], "C11": ["C09", "C05"], "C03": ["C19", "C16"], "C18": ["C10"], "C12": ["C01"], "C01": ["C12"], "C13": ["C01"]}
+WT = os.environ.get("SEED_WT", "/tmp/seedrepo")
+subprocess.run(["git", "-C", "/repo", "worktree", "remove", "--force", WT], capture_output=True)
+subprocess.run(["git", "-C", "/repo", "worktree", "add", "-q", "--detach", WT, "HEAD"], check=True)
+subprocess.run(["cp", "/repo/src/execnet/_version.py", WT + "/src/execnet/_version.py"])
+env = dict(os.environ, VERIF_REPO=WT)
 res = json.load(open(out)) if os.path.exists(out) else {}
-for pid in ids:
-    for n in (1, 2):
-        d = f"{root}-{pid}/mut{n}"
-        patch = os.path.join(d, "patch.diff")
-        if not os.path.exists(patch):
-            continue
-        key = f"{pid}/{n}"
-        subprocess.run(["git", "-C", "/repo", "checkout", "--", "."])
-        ok = subprocess.run(f"git -C /repo apply {patch} 2>/dev/null || (cd /repo && patch -p1 -F3 -s --no-backup-if-mismatch < {patch})", shell=True).returncode == 0
-        if not ok:
-            res[key] = {"applies": False}
-            continue
-        det = {}
-        for chk in [pid] + EXTRA.get(pid, []):
-            p = subprocess.run(["/verif/check", chk, "--tier", "quick"], capture_output=True, text=True)
-            what = [l.strip() for l in p.stdout.splitlines() if l.strip().startswith("what:")]
-            det[chk] = {"rc": p.returncode, "first": what[0][:160] if what else ""}
-            if chk == pid and p.returncode == 1:
-                break  # its own check catches it; the others need not be run
-        subprocess.run(["git", "-C", "/repo", "checkout", "--", "."])
-        res[key] = {"applies": True, "detected_by": [c for c, v in det.items() if v["rc"] == 1], "detail": det}
-        json.dump(res, open(out, "w"), indent=1)
-        print(key, res[key]["detected_by"], flush=True)
-subprocess.run(["git", "-C", "/repo", "checkout", "--", "."])
+try:
+    for pid in ids:
+        for n in (1, 2):
+            d = f"{root}-{pid}/mut{n}"
+            patch = os.path.join(d, "patch.diff")
+            if not os.path.exists(patch):
+                continue
+            key = f"{pid}/{n}"
+            subprocess.run(["git", "-C", WT, "checkout", "--", "."])
+            ok = subprocess.run(f"git -C {WT} apply {patch} 2>/dev/null || (cd {WT} && patch -p1 -F3 -s --no-backup-if-mismatch < {patch})", shell=True).returncode == 0
+            if not ok:
+                res[key] = {"applies": False}
+                continue
+            det = {}
+            for chk in [pid] + EXTRA.get(pid, []):
+                p = subprocess.run(["/verif/check", chk, "--tier", "quick"], capture_output=True, text=True, env=env)
+                what = [l.strip() for l in p.stdout.splitlines() if l.strip().startswith("what:")]
+                det[chk] = {"rc": p.returncode, "first": what[0][:160] if what else (p.stderr[-200:] if p.returncode == 2 else "")}
+                if chk == pid and p.returncode == 1:
+                    break  # its own check catches it; the others need not be run
+            subprocess.run(["git", "-C", WT, "checkout", "--", "."])
+            res[key] = {"applies": True, "detected_by": [c for c, v in det.items() if v["rc"] == 1], "detail": det}
+            json.dump(res, open(out, "w"), indent=1)
+            print(key, res[key]["detected_by"], {c: v["rc"] for c, v in det.items()}, flush=True)
+finally:
+    subprocess.run(["git", "-C", "/repo", "worktree", "remove", "--force", WT], capture_output=True)
